@@ -509,6 +509,17 @@ func (bc *BlockChain) insert(block *types.Block) {
 	if err := WriteHeadBlockHash(batch, block.Hash()); err != nil {
 		log.Crit("Failed to insert head block hash", "err", err)
 	}
+	if updateHeads {
+		// The chain is being re-routed onto this block: delete any canonical
+		// number assignments above the new head (they belong to the abandoned
+		// branch when the new branch is shorter), as HeaderChain.WriteHeader does.
+		for i := block.NumberU64() + 1; ; i++ {
+			if hash := GetCanonicalHash(bc.db, i); hash == (common.Hash{}) {
+				break
+			}
+			DeleteCanonicalHash(batch, i)
+		}
+	}
 	if err := batch.Write(); err != nil {
 		log.Crit("Failed to insert head block", "err", err)
 	}
